@@ -1043,7 +1043,20 @@ impl<T: Serialize + for<'de> Deserialize<'de> + Clone + PartialEq + Send + Sync 
             let mut size_bytes = [0u8; 4];
             match file.read_exact(&mut size_bytes) {
                 Ok(()) => {}
-                Err(e) if e.kind() == std::io::ErrorKind::UnexpectedEof => break,
+                Err(e) if e.kind() == std::io::ErrorKind::UnexpectedEof => {
+                    // One to three stray bytes are the start of a length prefix that
+                    // was never completed - a torn write like any other.
+                    if framed_end < file_len {
+                        stats.corruption_events.push(CorruptionEvent {
+                            file_path: path.to_path_buf(),
+                            corruption_type: CorruptionType::IncompleteWrite,
+                            offset: framed_end,
+                            recovery_action: RecoveryAction::Skipped,
+                        });
+                        stats.entries_failed += 1;
+                    }
+                    break;
+                }
                 Err(e) => return Err(P2PError::Io(e)),
             }
 
